@@ -47,6 +47,23 @@ HasLitSpreadHook(n) ==
              w.c[2].c[i].t = "_arg" /\ IsSpreadArg(w.c[2].c[i]) /\ IsLit(w.c[2].c[i].c[1])
   \/ \E k \in 1..Len(n.c) : HasLitSpreadHook(n.c[k])
 
+(* a lowered optional chain used as the callee of a call / tag of a template: (a?.m().f)(x).  The input calls f  *)
+(* on the value of a?.m(); the lowering turns the callee into a sequence/conditional VALUE, so f runs with       *)
+(* this = undefined (named deviation D25).  Shape: a parenthesised chain ending in a member access, with a      *)
+(* hooked optional call on its own spine.                                                                        *)
+RECURSIVE SpineIds(_)
+SpineIds(n) ==
+  IF n.t \in {"OptionalChainingExpression", "MemberExpression", "CallExpression"}
+  THEN {n.id} \cup SpineIds(n.c[1]) ELSE {}
+RECURSIVE HasChainCallee(_, _)
+HasChainCallee(n, hookedOpt) ==
+  \/ /\ n.t \in {"CallExpression", "TaggedTemplateExpression"}
+     /\ n.c[1].t = "ParenthesisExpression"
+     /\ LET c == StripParen(n.c[1]) IN
+          /\ c.t = "OptionalChainingExpression" /\ c.c[1].t = "MemberExpression"
+          /\ SpineIds(c) \cap hookedOpt # {}
+  \/ \E k \in 1..Len(n.c) : HasChainCallee(n.c[k], hookedOpt)
+
 (* names the file prologue defines pass-throughs for:  { <name>: noop, ... }  inside the prologue statement *)
 RECURSIVE NoopKeys(_)
 NoopKeys(n) ==
@@ -121,6 +138,8 @@ JudgeOk(r) ==
      THEN Verdict(r.rid, "H01", "dev", {"D22-arguments-evaluated-before-absent-callee-throws"}) ELSE TRUE
   /\ IF modified /\ HasLitSpreadHook(rout)
      THEN Verdict(r.rid, "H01", "dev", {"D24-literal-spread-iterated-after-later-arguments"}) ELSE TRUE
+  /\ IF m.ok /\ HasChainCallee(rin, {sites[i].id : i \in {j \in siteIdx : sites[j].k = "optcall" /\ sites[j].id \in hookedIds}})
+     THEN Verdict(r.rid, "H01", "dev", {"D25-lowered-chain-as-callee-loses-this"}) ELSE TRUE
   \* ---- C01 (static half) : the symbolic order of effects of the output is that of the input
   /\ IF ~modified THEN Verdict(r.rid, "C01", "na", "not modified")
      ELSE IF r.in_mentions_ns THEN Verdict(r.rid, "C01", "na", "the input mentions the hook namespace")
